@@ -105,7 +105,7 @@ def run(rep, tier, pool, variants=("shipped",)):
     for variant in variants:
         res = pool.call("harness.props.c15:check_one", [(s, m, need, variant) for s, m, need in cases], timeout=120)
         for (s, m, need), o in zip(cases, res):
-            if o.get("k") in ("hang", "crash", "worker-exc") and "ok" not in o:
+            if o.get("k") in ("hang", "crash", "worker-exc", "not-run") and "ok" not in o:
                 rep.case((s, m), False)
                 rep.count("infra:" + str(o.get("k")))
                 continue
